@@ -21,6 +21,7 @@ def run_case(ctx, case):
     curve = make_curve(U, P, W)
     start = curve_state(curve)
     if mode in ("elevate", "setter", "roundtrip"):
+        impl(lambda: float_twin(U, P, W).degree_increase(t))       # float data first (cross-call caches)
         if mode == "setter":
             def act():
                 curve.degree = p + t
